@@ -418,3 +418,22 @@ fn take_from_entry(
         }
     }
 }
+
+#[cfg(feature = "verif")]
+impl TaskQueue {
+    /// Plain-data dump of the ready queue: (priority, task ids) in descending priority order.
+    pub(crate) fn verif_ready(&self) -> Vec<(Priority, Vec<TaskId>)> {
+        self.queue
+            .iter()
+            .map(|(p, ts)| {
+                (
+                    p.0,
+                    match ts {
+                        OneOrMoreTaskIds::One(t) => vec![*t],
+                        OneOrMoreTaskIds::More(ts) => ts.iter().copied().collect(),
+                    },
+                )
+            })
+            .collect()
+    }
+}
